@@ -259,9 +259,21 @@ def translate(repo):
         if not f.endswith('.cpp'):
             continue
         found = {}
-        for m in re.finditer(r'\b(\w+)\s*\.\s*(merge|sort)\s*\(([^()]*)\)', s):
-            name, what, args = m.group(1), m.group(2), m.group(3).strip()
-            if (what == 'merge' and (',' in args or not args)) or (what == 'sort' and args):
+        for m in re.finditer(r'\b(\w+)\s*\.\s*(merge|sort)\s*\(', s):
+            name, what = m.group(1), m.group(2)
+            # the argument text up to the matching parenthesis; commas at depth 0 separate arguments
+            depth, k, top_commas = 1, m.end(), 0
+            while k < len(s) and depth > 0:
+                ch = s[k]
+                if ch in '([{':
+                    depth += 1
+                elif ch in ')]}':
+                    depth -= 1
+                elif ch == ',' and depth == 1:
+                    top_commas += 1
+                k += 1
+            args = s[m.end():k - 1].strip()
+            if (what == 'merge' and (top_commas > 0 or not args)) or (what == 'sort' and args):
                 continue
             decl = [d for d in re.finditer(r'std::list\s*<\s*((?:const\s+)?[\w:]+)\s*\*\s*>\s*&?\s*%s\b' % re.escape(name), s[:m.start()])]
             if not decl:
